@@ -220,6 +220,10 @@ func hopTriangle(r *report.Run, algo string, limits []int) {
 				now := bubble.NowMs()
 				m := rxBundle(pid, seq, now, []model.Block{{Type: model.THopCount, Num: 3, CRC: uint64(seq % 3), Limit: uint8(limit), Count: uint8(count)},
 					{Type: model.TPrevNode, Num: 2, Node: model.Dtn("src", "")}}, now-1000, 86_400_000)
+				if algo == "spray" {
+					// plain spray-and-wait relays a foreign bundle to its destination only: the connected peer is the destination
+					m.Dst = model.Dtn("r1", "")
+				}
 				sp := &spec{m: m, wire: encodeSpec(m), pid: pid, rxMs: now}
 				step0 := len(s.Trace())
 				if err := s.Deliver("src", sp.wire); err != nil {
